@@ -7,6 +7,32 @@ HERE = os.path.dirname(os.path.dirname(os.path.abspath(__file__)))
 
 # property id -> (technique, level text, level note, design ref) ; only built checks are listed
 CHECKS = {
+    'C07': ('exhaustive enumeration of call notations x configurations with the random id generators as environment choice points '
+            '(all answers enumerated), real client wired to the real dispatcher in-process; the registered python function called '
+            'directly is the reference',
+            '5 single-call notations and 5 batch notations x 4 sync/async client-dispatcher pairings x 6 id generators x strict '
+            'on/off x 4 method behaviours x argument shapes; all call/notify strings up to length 3/4: one valid request document '
+            'per send with distinct ids, caller gets the direct call\'s value / typed exception, every function runs once, '
+            'notations interchangeable, id collisions of random generators surface as IdentityError at build time.',
+            'trusted: direct python call + JSON normalisation as oracle; random.randint / random.choice / uuid.uuid4 replaced by the explorer',
+            'DESIGN.md section 5, C07'),
+    'C10': ('exhaustive schedule enumeration on a virtual asyncio event loop: every order in which the pending suspension points '
+            '(gates) of methods, middlewares and error handlers can complete is executed on the real AsyncDispatcher',
+            'Batches of 1..4 elements (quick: 4 over 5 kinds; thorough: 4 over all 14 types, 5 over 4 kinds) with 0..2 suspension points per element, '
+            'failing / notification / plain-function / unknown-method elements, middleware and error-handler gates, concurrent and '
+            'sequential mode: responses in request order with own id and payload, every method once, no deadlock; sequential '
+            'mode never has two elements in flight.',
+            'trusted: mc/vloop.py (FIFO ready queue as asyncio guarantees, stock Task/gather/Future); suspension only at gates',
+            'DESIGN.md section 5, C10'),
+    'C13': ('(a) exhaustive enumeration of request histories without state merging, differential against a fresh dispatcher; '
+            '(b) invariant over growing histories with weak references and cache sizes; (c) CHESS-style exhaustive thread '
+            'interleaving exploration with preemption bounding (sys.settrace line-level scheduler over real threads)',
+            'All histories of length <= 2/3 over 18 requests followed by all probes on one dispatcher equal the fresh answers; after '
+            '1110 dispatches no context / view / per-request object is alive and caches do not grow; 12 request pairs on 2 threads '
+            '(<= 2 preemptions) and 3 triples on 3 threads (<= 1 preemption) on a shared Dispatcher, a switch possible at every '
+            'pjrpc source line: each thread gets its solo answer and its own context.',
+            'trusted: mc/threadsched.py (self-tested on a planted lost update); GIL-atomic C code is outside the model; no pools beyond 3 threads',
+            'DESIGN.md section 5, C13'),
     'C08': ('exhaustive enumeration of every response document an adversarial server can return (environment choice '
             'exploration) against the real sync/async client, judged by a reference id-matcher',
             'For batches of 1..3/4 calls: every response array of length 0..n+1 over {id of call i, unknown id, type-confused '
